@@ -153,6 +153,8 @@ def run(check):
                          "seed": 23, "hs_adv": True, "profile": "corpus-half-rtt-data-silent-client"})
     # regression corpus: the script with which the thorough tier found the ACK-of-ACK PING in an Initial datagram that cannot be padded
     jobs.append({'cfg': {'mds': 1280, 'chain': False, 'smallcert': True, 'cc': 'reno', 'version': 'v1'}, 'script': [['write', 'c', 2, 1100, False], ['deliver', 4], ['spoof', 5, 0], ['drop', 3], ['write', 's', 3, 1300, False], ['spoof', 3, 2], ['dup', 2], ['changecid', 's'], ['deliver', 6], ['drop', 0], ['drop', 1], ['write', 'c', 4, 200, False], ['drop', 7], ['write', 's', 3, 5, False], ['write', 'c', 2, 30, False], ['write', 'c', 2, 2, False], ['write', 'c', 0, 3000, True], ['deliver', 5], ['timer', 's'], ['dup', 2], ['drop', 4], ['drop', 2], ['deliver', 7], ['changecid', 's'], ['corrupt', 5, 60], ['drop', 0], ['timer', 's'], ['deliver', 5], ['corrupt', 3, 1150], ['timer', 'c'], ['deliver', 0], ['spoof', 6, 0], ['write', 's', 1, 3000, True], ['spoof', 6, 1], ['spoof', 3, 0], ['write', 'c', 0, 200, False], ['drop', 6], ['drop', 7], ['timer', 's'], ['spoof', 6, 1]], 'seed': 1071925593, 'hs_adv': True, 'profile': 'corpus-ack-of-ack-ping-unpaddable-initial'})
+    # regression corpus: the script with which the thorough tier found the datagram that went one byte over the 3x budget
+    jobs.append({'cfg': {'mds': 1200, 'chain': True, 'smallcert': False, 'cc': 'reno', 'version': 'v1'}, 'script': [['deliver', 7], ['dup', 0], ['corrupt', 7, 1150], ['timer', 's'], ['spoof', 3, 2], ['deliver', 7], ['deliver', 4], ['deliver', 1], ['deliver', 2], ['timer', 's'], ['rebind'], ['deliver', 2], ['write', 's', 4, 2, False], ['rebind'], ['drop', 6], ['spoof', 2, 1], ['dup', 3], ['spoof', 7, 2], ['deliver', 7], ['write', 'c', 4, 1100, False], ['timer', 's'], ['drop', 7], ['deliver', 3], ['changecid', 's'], ['drop', 3], ['write', 'c', 4, 1300, False], ['deliver', 6], ['spoof', 0, 1], ['write', 'c', 4, 1300, False], ['rebind'], ['write', 's', 1, 3000, False], ['write', 'c', 0, 200, False], ['write', 's', 3, 2, False], ['timer', 'c'], ['write', 'c', 2, 3000, True], ['deliver', 3], ['deliver', 7], ['deliver', 7], ['write', 'c', 0, 5, False], ['deliver', 1]], 'seed': 342864517, 'hs_adv': True, 'profile': 'corpus-one-byte-over-the-budget'})
     jobs += zrtt_jobs(rnd, 1 if check.quick else 20)
     results = runner.run_many(job_fn, jobs)
     check.cov["zero_rtt_packets_on_the_wire"] = sum(r["zrtt"] for r in results)
